@@ -413,6 +413,6 @@ pub fn right_span(i: u64) -> (r: u64)
 #[verifier::external_body]
 pub fn left_span(i: u64) -> (r: u64)
     requires i < 0x2000_0000_0000_0000
-    ensures i % 2 == 0 ==> r == i, r <= i, r % 2 == 0
+    ensures i % 2 == 0 ==> r == i, r <= i, r % 2 == 0, r == offset_of(i) * p2(depth_of(i) + 1)
 { unimplemented!() }
 } // mod flat_tree
